@@ -84,7 +84,7 @@ func (cmap Format12) Encode(language uint16) []byte {
 	sort.Slice(keys, func(i, j int) bool { return keys[i] < keys[j] })
 	segStart := 0
 	for i := 1; i < len(keys); i++ {
-		if keys[i] != keys[i-1]+1 || cmap[keys[i]] != cmap[keys[i-1]]+1 {
+		if keys[i] != keys[i-1]+1 || uint32(cmap[keys[i]]) != uint32(cmap[keys[i-1]])+1 {
 			ss = append(ss, format12segment{
 				StartCharCode: keys[segStart],
 				EndCharCode:   keys[i-1],
